@@ -247,7 +247,7 @@ def run(ctx):
         wc = ctx.anchor_fn("R15.4", "watchexec::watchexec::Watchexec::with_config")
         mains = [c for c in facts.children(wc) if c.kind == "coroutine"]
         mt = ctx.anchor_one("R15.4", "main task coroutine", mains)
-        ms = [m for m in thir.find(thir.root(mt), "match") if m["src"] == "Normal" and "CriticalError" in m["sty"] and "&str" in m["sty"]]
+        ms = [m for m in thir.find(thir.root(mt), "match") if m["src"] == "Normal" and m["sty"].startswith("core::result::Result<&str, ") and m["sty"].endswith("CriticalError>")]
         if len(ms) != 1:
             ctx.violation("R15.4", "floor:main-match", "main task no longer matches on the workers' results once (found %d)" % len(ms), mt.loc(mt.line))
         else:
